@@ -6,7 +6,9 @@
  *     one recipient netstring with symbolic length field, separator, first and last
  *     payload byte and terminator, and a symbolic outer terminator; NN = 11 + TL.
  * TEMPLATE 3, TS:          NN:  1:m,  ??  ?*TS  ?  2:rc,  ,
- *     sender netstring with symbolic length digit, separator, bytes and terminator. */
+ *     sender netstring with symbolic length digit, separator, bytes and terminator.
+ * TEMPLATE 5, AL:          NNNN:  1:m,  0:,  AL:  ? a..a ?  ,  ,
+ *     one recipient of AL = 999, 1000 bytes (first and last byte symbolic): the length limit. */
 #if TEMPLATE == 1
 #ifndef TL
 #define TL 0
@@ -35,5 +37,31 @@ static void template_fill(unsigned char *b)
   p += 2 + TS + 1;
   b[p++] = '2'; b[p++] = ':'; b[p++] = 'r'; b[p++] = 'c'; b[p++] = ',';
   b[p++] = ',';
+}
+#elif TEMPLATE == 5
+#ifndef AL
+#define AL 1000
+#endif
+#define MAXR 2                              /* the frame is concrete: one recipient */
+#define DIGITS(x) ((x) >= 1000 ? 4 : (x) >= 100 ? 3 : (x) >= 10 ? 2 : 1)
+#define OUTER (7 + DIGITS(AL) + 1 + AL + 1)
+#define N (DIGITS(OUTER) + 1 + OUTER + 1)
+static unsigned int put_num(unsigned char *b, unsigned int p, unsigned int x)
+{
+  if (x >= 1000) b[p++] = '0' + (x / 1000) % 10;
+  if (x >= 100) b[p++] = '0' + (x / 100) % 10;
+  if (x >= 10) b[p++] = '0' + (x / 10) % 10;
+  b[p++] = '0' + x % 10;
+  return p;
+}
+static void template_fill(unsigned char *b)
+{
+  unsigned int p = 0, i;
+  p = put_num(b, p, OUTER); b[p++] = ':';
+  b[p++] = '1'; b[p++] = ':'; b[p++] = 'm'; b[p++] = ',';
+  b[p++] = '0'; b[p++] = ':'; b[p++] = ',';
+  p = put_num(b, p, AL); b[p++] = ':';
+  for (i = 0; i < AL; ++i) { if (i != 0 && i != AL - 1) b[p] = 'a'; ++p; }
+  b[p++] = ','; b[p++] = ',';
 }
 #endif
